@@ -1,0 +1,43 @@
+//go:build !verif
+
+package bttest
+
+import (
+	"math/rand"
+	"os"
+	"sync"
+	"time"
+
+	"github.com/syndtr/goleveldb/leveldb"
+	"github.com/syndtr/goleveldb/leveldb/opt"
+)
+
+// Verification seams. With the "verif" build tag off (the default) they are
+// plain aliases of / one-line forwards to what the code used before.
+
+type serverMutex = sync.Mutex
+type tableMutex = sync.RWMutex
+
+func simYield(string) {}
+
+func wallNow() time.Time { return time.Now() }
+
+func randInt31n(n int32) int32 { return rand.Int31n(n) }
+
+func gcloopEnabled() bool { return true }
+
+func openDiskLeveldb(path string, o *opt.Options) (*leveldb.DB, error) {
+	return leveldb.OpenFile(path, o)
+}
+
+func fsMkdirAll(path string, perm os.FileMode) error { return os.MkdirAll(path, perm) }
+
+func fsWriteFile(name string, data []byte, perm os.FileMode) error {
+	return os.WriteFile(name, data, perm)
+}
+
+func fsRename(oldpath, newpath string) error { return os.Rename(oldpath, newpath) }
+
+func fsRemove(name string) error { return os.Remove(name) }
+
+func fsRemoveAll(path string) error { return os.RemoveAll(path) }
